@@ -4,7 +4,8 @@ import json, sys
 props = {}
 for l in open('/verif/properties.jsonl'):
     p = json.loads(l); props[p['id']] = p
-for pid in sys.argv[1:]:
+ROUND2 = '--round2' in sys.argv
+for pid in [a for a in sys.argv[1:] if not a.startswith('--')]:
     p = props[pid]
     txt = f"""You are helping to evaluate a verification tool by seeding realistic bugs ("mutations") into a Rust project.
 
@@ -15,7 +16,7 @@ PROPERTY {pid}: {p['title']}
 Quantified over: {p['quantifier']['text']}
 Relevant code: {', '.join(p['anchors']['files'])}
 
-YOUR TASK: produce THREE different, independent source changes (each a separate patch against the unmodified worktree HEAD) that each BREAK this property while the crate still compiles and ALL existing tests still pass (`cargo test --offline` - run it and confirm 237 passed, 0 failed for each patch). Each change must look like a plausible programming slip or well-meant refactor/optimisation (off-by-one, wrong comparison operator, wrong variable, reordered statements, lost special case, boundary condition...), NOT an obvious sabotage, and it must need something SPECIFIC to manifest - an unusual input, a particular multi-step combination, a boundary value, two cooperating sites - not something that ordinary use would expose at once. Prefer changes in different functions/mechanisms for the three patches.
+YOUR TASK: produce THREE different, independent source changes (each a separate patch against the unmodified worktree HEAD) that each BREAK this property while the crate still compiles and ALL existing tests still pass (`cargo test --offline` - run it and confirm 237 passed, 0 failed for each patch). Each change must look like a plausible programming slip or well-meant refactor/optimisation (off-by-one, wrong comparison operator, wrong variable, reordered statements, lost special case, boundary condition...), NOT an obvious sabotage, and it must need something SPECIFIC to manifest - an unusual input, a particular multi-step combination, a boundary value, two cooperating sites - not something that ordinary use would expose at once. Prefer changes in different functions/mechanisms for the three patches." + (" This is a SECOND round: an earlier round already produced the most obvious slips for this property (single flipped operators, dropped trims, swapped first/last), so go for subtler ones - interactions between two features, state carried across loop iterations or across blocks/files, rarely taken branches, multi-byte text, boundary positions (first/last line, column 1, end of file), option combinations." if ROUND2 else "") + "
 
 For each patch i in 1..3 write into /tmp/seed_{pid}.out/ :
   - patch{{i}}.diff   : `git diff` output against HEAD (must apply with `git apply` to a clean checkout)
